@@ -270,8 +270,10 @@ func (x *X) PubLeave() error {
 		return nil
 	}
 	x.Pub.Close()
-	x.PubAlive = false
 	err := x.W.Settle()
+	// what the departure itself delivers (buffered tail of the leaving publisher) belongs to its time
+	x.PumpAll()
+	x.PubAlive = false
 	x.Pub = nil
 	return err
 }
